@@ -20,6 +20,8 @@ import multiprocessing as mp
 import os
 import re
 import shutil
+import subprocess
+import sys
 import threading
 import zlib
 from concurrent.futures import ThreadPoolExecutor
@@ -479,6 +481,27 @@ def hypothesis_texts(n, sd, maxlen=48):
     return out
 
 
+def _start_hypothesis(ctx, n):
+    """Generate the B texts in a clean interpreter (no hed, no threads): hypothesis mixes constants found in the
+    locally imported modules into its draws, so the result depends on what is imported -- keep that fixed."""
+    out = os.path.join(ctx.work, "hypothesis_texts.json")
+    code = ("import json,sys; sys.path.insert(0, %r); from vf.props import c02; "
+            "json.dump(c02.hypothesis_texts(%d, %d), open(%r, 'w'))" % (tlc.VERIF, n, ctx.seed, out))
+    env = {k: v for k, v in os.environ.items() if k in ("PATH", "HOME", "LANG", "LC_ALL")}
+    env.update(PYTHONHASHSEED="0", PYTHONDONTWRITEBYTECODE="1",
+               HYPOTHESIS_STORAGE_DIRECTORY=os.path.join(ctx.work, "hypothesis"))
+    return subprocess.Popen([sys.executable, "-c", code], env=env, cwd=ctx.work, stdout=subprocess.PIPE,
+                            stderr=subprocess.STDOUT, text=True), out
+
+
+def _collect_hypothesis(proc, out):
+    log, _ = proc.communicate(timeout=1500)
+    if proc.returncode != 0 or not os.path.exists(out):
+        raise tlc.TLCFailure("hypothesis text generation failed (rc=%s): %s" % (proc.returncode, (log or "")[-600:]))
+    with open(out) as f:
+        return json.load(f)
+
+
 # --------------------------------------------------------------------------------------
 # the check
 # --------------------------------------------------------------------------------------
@@ -574,6 +597,7 @@ def run(ctx):
             got["stuck"] = "deadlock"
         ctx.note("broken_variants_rejected_by_spec", got)
 
+    hyp = _start_hypothesis(ctx, 3000 if quick else 40000)
     # the model runs (TLC only) go on in a thread while the generated cases are replayed into the real code
     import hed  # noqa: F401  (before any thread/fork)
     _pool_init()
@@ -583,12 +607,14 @@ def run(ctx):
     bg = ThreadPoolExecutor(1)
     fut = bg.submit(model_runs)
     try:
-        _run_bindings(ctx, pool, n, plen)
+        _run_bindings(ctx, pool, n, plen, hyp)
         fut.result()                      # design / sensitivity failures are machinery failures (TLCFailure)
     finally:
         pool.terminate()
         pool.join()
         bg.shutdown(wait=True)
+        if hyp[0].poll() is None:
+            hyp[0].kill()
     ctx.tlc_runs.sort(key=lambda r: (r["cfg"], r["label"]))
     ctx.assumptions += [
         "blank = U+0020 only (the class map of the property's alphabet); tab, NBSP and other Unicode white space are tag "
@@ -602,7 +628,7 @@ def run(ctx):
         "a sample of the concretised texts is additionally judged by TLC directly (trace mode)"]
 
 
-def _run_bindings(ctx, pool, n, plen):
+def _run_bindings(ctx, pool, n, plen, hyp):
     quick = ctx.quick
     cfg = "MC_HedText_gen.cfg" if quick else "MC_HedText_gen_thorough.cfg"
     prefixes = [""]
@@ -663,8 +689,7 @@ def _run_bindings(ctx, pool, n, plen):
     ctx.note("vocabulary_coverage", {SCHEMA_VERSION: {"spellings_used": len(used), "spellings_total": len(spell)}})
 
     # ---- B: hypothesis texts + sample of A2 texts, judged by TLC
-    nb = 3000 if quick else 40000
-    texts = hypothesis_texts(nb, ctx.seed)
+    texts = _collect_hypothesis(*hyp)
     chunks = [texts[i:i + 500] for i in range(0, len(texts), 500)]
     obs = [x for part in pool.map(observe_texts, chunks) for x in part]
     trace_sample.sort(key=lambda x: x[0])
